@@ -36,6 +36,7 @@ func init() {
 
 func ExecuteTemplate(name string, data any) (string, error) {
 	var bs bytes.Buffer
+	verifRecordTemplate(name)
 	err := templates.ExecuteTemplate(&bs, name, data)
 	if err != nil {
 		return "", fmt.Errorf("execute template (%s): %w", name, err)
